@@ -88,7 +88,8 @@ META["C02"] = dict(
     level_text="Runtime monitoring of the real parser over generated type hints (depth<=3 quick / <=4 thorough): an independent "
     "structural validator judges every accepted result at the API boundary and, through an icontract postcondition on "
     "adapt_typehints, at every nesting level; conforming natives must be accepted, irrecoverable near misses rejected; container "
-    "and Union acceptance are compared metamorphically with what the real parser says about the parts, over all member permutations.",
+    "and Union acceptance are compared metamorphically with what the real parser says about the parts, over all member permutations."
+    " Also: castable re-spellings of conforming values at one position (numeral strings, integral floats, int for float, bool / numeral-string keys for int keys) where only the conformance of an accepted result is judged; integers no float can hold (2**53+1, 10**400); Unions of sibling containers (same constructor and arity, different leaf types) given in the list form a config file produces; an escaping exception in one member order while another order accepts counts as order dependence.",
     level_note="Trusted: vf.models.conform (structural typing rules) and the generator's notion of a near miss. Sampled, not "
     "exhaustive; string-encoded containers below the top level are outside (c) by design of the loader.",
     shards=g(4, 16),
@@ -130,7 +131,8 @@ META["C01"] = dict(
     "restricted/registered types, dataclasses, subclass specs, nested groups, subcommands) x accepted configurations rich in "
     "hostile strings x 9 serialisation routes (dump yaml/json/json_indented/skip_default, --print_config [skip_default|comments], "
     "save single/multi-file); the re-parsed configuration is compared value-for-value and type-for-type with the probe's own "
-    "copy of the original. A second monitor compares the YAML dumper/loader pair directly on every hostile string.",
+    "copy of the original. A second monitor compares the YAML dumper/loader pair directly on every hostile string."
+    " Option-less subcommands are part of the grammar. A variant route (skip_default, comments) is judged only when the plain route round trips for the same configuration.",
     level_note="Trusted: the comparator and the dynamic Union-ambiguity test (a value whose owner-member serialisation is read "
     "differently by another member is logged, not judged). Any-typed arguments are outside the property's grammar.",
     shards=g(4, 16),
@@ -165,7 +167,8 @@ META["C10"] = dict(
     "channels (parse_object, parse_args, parse_string, parse_path, --cfg file, defaults only): validate(C) must pass, "
     "parse_object(C) must return an equal configuration (type for type), from the original and from another working "
     "directory, and dump(parse_string(dump(C))) must be byte-identical to dump(C) in yaml and json. One case in six uses "
-    "class-typed options with prefix-related names (model, model_ema, ...) that all carry defaults with init_args.",
+    "class-typed options with prefix-related names (model, model_ema, ...) that all carry defaults with init_args."
+    " Also: a sparse class spec (defaults=False) re-parsed after an unrelated parse failed while class defaults were being added; settings for a subcommand other than the one named; dataclass fields that are Optional with a non-null default set to null.",
     level_note="Trusted: the comparator. The dump-parse-dump clause is judged only when the re-parsed configuration equals C "
     "(otherwise the difference is C01's and is counted, not double-reported).",
     shards=g(4, 16),
@@ -227,7 +230,8 @@ META["C03"] = dict(
     "tags, non-importable and non-class import paths, wrong-typed class_path/init_args, missing files, directories), hostile "
     "config texts, environment mappings and Python objects, over five parser shapes (flat+groups, class/dataclass arguments, "
     "nested subcommands, links, positionals) in both exit_on_error modes. Termination is judged on a logical step budget "
-    "(4e6 Python function entries per call, counted with sys.monitoring), not on wall-clock time.",
+    "(4e6 Python function entries per call, counted with sys.monitoring), not on wall-clock time."
+    " A sixth shape has an existing default config file and a required option; for half of the cases the same input is run under the opposite exit_on_error mode and the decisions must agree (what fails in one mode cannot print a config and exit 0 in the other).",
     level_note="Trusted: the classification of documented outcomes (Namespace, ArgumentError, exit 2 with usage+error, exit 0 for "
     "help/print_config). Sampled inputs; a wall-clock watchdog firing is INCONCLUSIVE.",
     shards=g(4, 16),
@@ -264,7 +268,8 @@ META["C04"] = dict(
     "are options / '+' appends / dict items / config files / config strings) predicts the final value of 9 keys (flat, nested, "
     "list-typed, dict-typed); compared key by key with what the real parser returns, for parse_args, parse_env, parse_string, "
     "parse_object and parse_path, with default_env off / on / env=True / JSONARGPARSE_DEFAULT_ENV. Values carry the index of the "
-    "source that wrote them.",
+    "source that wrote them."
+    " Further keys: an option spelled with a hyphen, a Sequence with a tuple default, a list of lists, a Mapping with a MappingProxyType default, a Dict with an OrderedDict default; a default config file matched by a pattern and listed again after it; a second call on the same parser (same sources, or only the standing sources); parse_path of a config in another directory than the process.",
     level_note="Trusted: vf.models.fold (the statement rewritten as code). Sampled scenarios; only unambiguous values "
     "(ints, bools, words, int lists, str->int dicts).",
     shards=g(4, 16),
@@ -292,7 +297,8 @@ META["C05"] = dict(
     "(nested dict, dotted dict, Namespace), parse_string (nested, dotted), parse_path, --cfg file, --cfg string, argv options "
     "(= and space form) and environment variables (names built by an independent implementation of the documented rule); all "
     "must agree on accept/reject and on the resulting configuration, type for type. The same JSON document is parsed under "
-    "parser_mode yaml/json/jsonnet/omegaconf (parse_string and --cfg file) and compared.",
+    "parser_mode yaml/json/jsonnet/omegaconf (parse_string and --cfg file) and compared."
+    " A twelfth channel spells structured values option by option on argv (--k=<class> --k.init_args.x=v, --k.field=v, --k={} --k.key=v); a dedicated scenario gives partial class settings (only init_args, only dict_kwargs, the same class again) for arguments that have a default spec.",
     level_note="Trusted: the rendering rules (top-level strings raw on argv/env, everything else JSON) and the dynamic test that "
     "excludes settings without an unambiguous text form (non-string scalar at a Union position with a string-taking member; Any).",
     shards=g(4, 16),
@@ -322,7 +328,8 @@ META["C06"] = dict(
     "subcommands; seven kinds of required keys): starting from a configuration that every channel accepts, one foreign key (unique "
     "token, prefixes of defined names, '+'-suffixed names; scalar, empty mapping, mapping or null value) is inserted at every node "
     "where the parser defines the keys, or one required key is removed / nulled; object, config string, --cfg string, --cfg file, "
-    "parse_path and argv must reject, the error must contain the foreign key; leftover argv and parse_known_args are probed.",
+    "parse_path and argv must reject, the error must contain the foreign key; leftover argv and parse_known_args are probed."
+    " Required-key mutations are also parsed with defaults=False (object and text), including a subcommand whose only setting is the required option and a required option of a second-level subcommand.",
     level_note="Trusted: the hand-written templates' list of nodes at which keys are defined by the parser (never under Dict-typed "
     "values, Any or dict_kwargs). A case whose valid configuration is not accepted by all channels is skipped and counted.",
     shards=g(4, 16),
@@ -356,7 +363,8 @@ META["C12"] = dict(
     "Values arrive as positionals, options (= and space form) and --config file/string. Every body records its bound arguments "
     "and returns a unique token; the monitor checks exactly-once calls, constructor/method separation, each binding "
     "(given value converted to the declared type, else the signature default; type for type) and the return value; omitting a "
-    "required parameter must fail.",
+    "required parameter must fail."
+    " Also: classes nested in a list / dict of components (methods become subcommands of a subcommand); configs holding settings for several methods; two parent-level --config arguments each holding a part of the chosen subcommand's section; parameters typed as a Union of sequence types.",
     level_note="Trusted: the generator's own record of which value was given for which parameter. Sampled programs.",
     shards=g(4, 16),
     budget=g(40, 240),
@@ -416,7 +424,8 @@ META["C14"] = dict(
     "specs of 10 kinds (valid, wrong class, non-class imports, callable returning subclass, unknown / ill-typed / sibling's / "
     "missing required init_args, non-str class_path) through object, argv and config text against Base, Optional[Base] and "
     "Union[Base,int]; instantiate_classes judged by the constructor log (exact type, once, configured init_args + dict_kwargs, "
-    "children first and as objects); six short notations compared with the explicit form; class changes between sources.",
+    "children first and as objects); six short notations compared with the explicit form; class changes between sources."
+    " Two-source scenarios: a class chosen by an earlier --cfg, then a later --cfg giving only init_args for that position (plain option, several entries of a Dict[str, Base], a class group inside a subcommand), compared with the same later source written with its class_path.",
     level_note="Trusted: issubclass / inspect.signature of the generated family as ground truth; one family, randomised specs.",
     shards=g(4, 16),
     budget=g(40, 240),
@@ -467,7 +476,8 @@ META["C17"] = dict(
     "settings for one or several subcommands through argv, --cfg string / file, object, config string and environment, "
     "including argv and config naming different subcommands. The model computes the expected choice at every level and the "
     "complete expected tree (defaults < default config file < environment < config < command line); the real result must "
-    "equal it exactly (no other sections), or the parse must fail when a required subcommand is undeterminable.",
+    "equal it exactly (no other sections), or the parse must fail when a required subcommand is undeterminable."
+    " Subcommand names include names of Namespace methods (get, items, pop).",
     level_note="Trusted: the model's reading of the selection rule and of the environment variable names (PREFIX_SUB__OPT, "
     "PREFIX_SUB__SUBCOMMAND). Environment-given settings are always accompanied by a named choice.",
     shards=g(4, 16),
@@ -497,7 +507,8 @@ META["C18"] = dict(
     "one save per fault position: an invalid value at each of 7 keys (top level, dataclass, JSON sub-file, inner parser, class "
     "init_args), a value of a user-registered type whose serializer raises (top level and inside the inner parser), and an "
     "injected OSError at the 1st..4th write-open. Oracle: SHA-256 directory snapshots before/after and the audit log of "
-    "write-opens; successful saves are parsed back and compared.",
+    "write-opens; successful saves are parsed back and compared."
+    " After the fault loop: a multi-file save that fails after its sub-files were collected, followed by a successful multi-file save into another directory; the directory of the failed save must stay untouched.",
     level_note="Trusted: snapshot comparison; injected OSError runs are judged only against 'no existing file modified unless "
     "overwrite is requested'. Read-only directories are not exercised (checks run as root). Quick samples 5 fault positions per scenario.",
     shards=g(4, 16),
@@ -526,7 +537,8 @@ META["C19"] = dict(
     "CAP_DAC_OVERRIDE/CAP_DAC_READ_SEARCH; also the error type, .relative and .absolute. Part B: config files nested 1-3 deep in "
     "different directories (decoys with the same relative names in the process cwd), referring to each other and to Path_fr, "
     "List[Path_fr], dataclass and inner-parser sub-files relatively, via --cfg / parse_path / default_config_files, with a "
-    "failure planted at a chosen depth; cwd before == after.",
+    "failure planted at a chosen depth; cwd before == after."
+    " Part B also: the first config reached through a symbolic link to its directory; 'key+' append entries with relative paths; a plain-line list file named on argv by relative / dot-relative / parent-relative / absolute path; the relative spelling of an argument's Path default given from a directory where it leads nowhere. Part A also compares Path with the registered path_type of the same mode inside a parser.",
     level_note="Trusted: the oracle's reading of each flag; FIFO with r/w/c flags and creating through a dangling symlink are "
     "'unspecified'. URL/fsspec flags are not exercised (no network). If the capability drop is refused the negative-permission "
     "sub-space is not observed and the gate on permission_bits_enforced makes the run INCONCLUSIVE.",
@@ -584,7 +596,8 @@ META["C08"] = dict(
     "environ, argparse.Namespace and sys.argv are compared and the audit log is checked (balanced chdir, no write-open by "
     "read-only operations, no putenv). Freshness: two instantiate_classes calls on one configuration (explicit specs, "
     "lazy_instance defaults, lists / dicts / tuples of classes, nested holders, class groups) must share no instance and "
-    "construct equally often. Config files reached through symlinked directories, valid and failing.",
+    "construct equally often. Config files reached through symlinked directories, valid and failing."
+    " Also: a default config file giving values for arguments declared without default (format_help / get_defaults must leave the declared defaults alone); arguments with nargs (typed and plain-callable types) and JSON-schema arguments whose schema has defaults; a lazy default instance that the program starts using between parses.",
     level_note="Trusted: the snapshot function. Aliasing between a result and parser defaults is not judged.",
     shards=g(4, 16),
     budget=g(45, 300),
